@@ -130,7 +130,8 @@ def h_roundtrip(mode, max_bytes):
         k, text = NAT.call("escaped_expectation", [mode_s.lower(), list(line)])
         if k != "return":
             return True, "escaped_expectation panics on %r (%s)" % (line, mode_s), "escape:panic"
-        printable = all(0x20 <= ord(c) <= 0x7e for c in text) if mode_s == "Ascii" else "\n" not in text
+        printable = all(0x20 <= ord(c) <= 0x7e for c in text) if mode_s == "Ascii" else \
+            not any(c == "\n" or any(lo <= ord(c) <= hi for lo, hi in rng) for c in text)
         if not printable:
             return True, "%s rendering %r of %r contains unprintable characters" % (mode_s, text, line), "escape:unprintable:%s" % mode_s.lower()
         if text.endswith(MARK):
